@@ -32,3 +32,143 @@ contract(
     loops={0: POOL_INV, 1: POOL_INV, 2: POOL_INV},
     min_obligations=10,
 )
+
+# ---- list-based pools ----------------------------------------------------------------------------
+contract(
+    'cell_type_mapper.diff_exp.precompute_from_anndata._precompute_summary_stats_from_h5ad_and_lookup#procs',
+    properties=['C14', 'C04'],
+    mode='slice', unexpected_exceptions='allowed',
+    tracked=['process_list', 'p', 'n_processors'],
+    params=dict(n_processors='Int'),
+    locals=dict(process_list='List[Proc]'),
+    ghost=dict(vars=dict(started='Set[Int]')),
+    ensures=[ALL_OK],
+    loops={k: POOL_INV for k in range(0, 12)},
+    min_obligations=10,
+)
+
+contract(
+    'cell_type_mapper.utils.csc_to_csr_parallel._transpose_sparse_matrix_on_disk_v2#procs',
+    properties=['C14', 'C04'],
+    mode='slice', unexpected_exceptions='allowed',
+    tracked=['process_list', 'p', 'n_processors'],
+    params=dict(n_processors='Int'),
+    locals=dict(process_list='List[Proc]'),
+    ghost=dict(vars=dict(started='Set[Int]')),
+    ensures=[ALL_OK],
+    loops={k: POOL_INV for k in range(0, 12)},
+    min_obligations=10,
+)
+
+# ---- dict-based pools ----------------------------------------------------------------------------
+DICT_INV = [
+    "all(process_dict[k].pid in started for k in process_dict)",
+    "all(implies(a != b, process_dict[a].pid != process_dict[b].pid) for a in process_dict for b in process_dict)",
+    "all(implies(not any(process_dict[k].pid == pid for k in process_dict), final_code(pid) == 0) for pid in started)",
+]
+
+
+
+def _dict_loops(qualname):
+    """invariants by loop role (read from the current source): the `for col0 in range(...)`
+    dispatch loop, the throttle loop nested in it, everything else"""
+    import ast
+    from pyvc.contracts import find_function
+    try:
+        fn = find_function(qualname)[1]
+    except Exception:
+        return {k: DICT_INV for k in range(12)}
+    out = {}
+    n = [0]
+
+    def walk(node, inside):
+        for ch in ast.iter_child_nodes(node):
+            if isinstance(ch, (ast.For, ast.While)):
+                k = n[0]
+                n[0] += 1
+                is_dispatch = isinstance(ch, ast.For) and isinstance(ch.target, ast.Name) \
+                    and ch.target.id == 'col0'
+                if is_dispatch:
+                    out[k] = DICT_INV + ["all(k < col0 for k in process_dict)"]
+                elif inside:
+                    out[k] = DICT_INV + ["all(k <= col0 for k in process_dict)"]
+                else:
+                    out[k] = list(DICT_INV)
+                walk(ch, inside or is_dispatch)
+            else:
+                walk(ch, inside)
+    walk(fn, False)
+    return out
+
+
+for q in ('cell_type_mapper.diff_exp.markers.create_sparse_by_pair_marker_file',
+          'cell_type_mapper.diff_exp.p_value_mask._create_p_value_mask_file',
+          'cell_type_mapper.diff_exp.p_value_markers.create_sparse_by_pair_marker_file_from_p_mask'):
+    contract(
+        q + '#procs',
+        properties=['C14', 'C04'],
+        mode='slice', unexpected_exceptions='allowed',
+        tracked=['process_dict', 'p', 'n_processors', 'col0', 'n_per', 'n_pairs'],
+        params=dict(n_processors='Int'),
+        requires=["n_processors >= 1"],
+        locals=dict(process_dict='Dict[Int,Proc]', n_per='Int', n_pairs='Int'),
+        ghost=dict(vars=dict(started='Set[Int]')),
+        ensures=[ALL_OK],
+        # the dispatch loop hands out strictly increasing keys: a live entry is never overwritten
+        loops=_dict_loops(q),
+        min_obligations=10,
+    )
+
+
+# query-marker selection: the pool is keyed by parent node; a parent is dispatched at most once
+# (it is added to started_parents first), so a live entry is never overwritten
+SEL_INV = DICT_INV + ["all(k in started_parents for k in process_dict)"]
+# the two search loops (`for parent in ...`) pick a parent that has not been started yet
+SEL_PICK = ["implies(have_chosen_parent, bound('chosen_parent') and chosen_parent not in started_parents)"]
+
+
+def _sel_loops(qualname):
+    """invariants only for the loops after `process_dict = dict()` (read from the current source)"""
+    import ast
+    from pyvc.contracts import find_function
+    try:
+        fn = find_function(qualname)[1]
+    except Exception:
+        return {}
+    first = None
+    for n in ast.walk(fn):
+        if isinstance(n, ast.Assign) and any(isinstance(t, ast.Name) and t.id == 'process_dict'
+                                             for t in n.targets):
+            first = n.lineno if first is None else min(first, n.lineno)
+    out = {}
+    k = [0]
+
+    def walk(node):
+        for ch in ast.iter_child_nodes(node):
+            if isinstance(ch, (ast.For, ast.While)):
+                if first is not None and ch.lineno > first:
+                    out[k[0]] = list(SEL_INV)
+                    if isinstance(ch, ast.For) and isinstance(ch.target, ast.Name) and ch.target.id == 'parent':
+                        out[k[0]] += SEL_PICK
+                k[0] += 1
+            walk(ch)
+    walk(fn)
+    return out
+
+
+contract(
+    'cell_type_mapper.marker_selection.selection_pipeline.select_all_markers#procs',
+    properties=['C14', 'C04'],
+    mode='slice', unexpected_exceptions='allowed',
+    tracked=['process_dict', 'p', 'n_processors', 'started_parents', 'chosen_parent',
+             'have_chosen_parent'],
+    params=dict(n_processors='Int'),
+    requires=["n_processors >= 1"],
+    # parent nodes (None or (level, node)) are abstract identifiers here: only equality matters
+    locals=dict(process_dict='Dict[Name,Proc]', started_parents='Set[Name]',
+                chosen_parent='Name', have_chosen_parent='Bool', parent='Name'),
+    ghost=dict(vars=dict(started='Set[Int]')),
+    ensures=[ALL_OK],
+    loops=_sel_loops('cell_type_mapper.marker_selection.selection_pipeline.select_all_markers'),
+    min_obligations=10,
+)
